@@ -177,6 +177,23 @@ def rule_c(ctx):
     f = idx.lookup_method(S.LIST, name)
     g = C.cfg_of(f.node)
     lo, hi = _range_guard(g, idxp)
+    # the body may have moved into a private continuation called last with the
+    # index passed through (`self._delete_item(index)`): decide it there
+    for _ in range(2):
+      if lo or hi:
+        break
+      last = f.node.body[-1]
+      call = last.value if isinstance(last, (ast.Expr, ast.Return)) and isinstance(getattr(last, 'value', None), ast.Call) else None
+      d = A.call_name(call) if call is not None else None
+      if not (d and d.startswith('self._') and d.count('.') == 1 and call.args
+              and isinstance(call.args[0], ast.Name) and call.args[0].id == idxp):
+        break
+      callee = idx.lookup_method(S.LIST, d.split('.')[1])
+      if callee is None or len(callee.node.args.args) < 2:
+        break
+      f, idxp = callee, callee.node.args.args[1].arg
+      g = C.cfg_of(f.node)
+      lo, hi = _range_guard(g, idxp)
     problems = []
     if not lo:
       problems.append('no `index < -len(self)` test raising')
@@ -199,7 +216,7 @@ def rule_c(ctx):
       seen, _ = g.reach(g.entry, blocked_edges=blocked, follow_exc=False)
       if name in ('__delitem__',) and any(a.id in seen for a in access):
         problems.append('storage accessed without the range test')
-    ctx.ob('C02.c', f.fq, not problems,
+    ctx.ob('C02.c', f'{S.LIST}.{name}', not problems,
            'an int index is range-checked on both sides (IndexError) and other index types raise TypeError',
            f.loc, '; '.join(problems))
 
